@@ -371,6 +371,8 @@ class Emitter:
         self.n_twins = emit_twins(self)
         emit_dircast(self)
         emit_layout(self)
+        emit_serial(self)
+        emit_print_facts(self)
         emit_fmt_triples(self)
         emit_model_overloads(self)
         self.n_inverse_pairs = emit_inverse_pairs(self)
@@ -868,6 +870,98 @@ def emit_dircast(em):
                         mods.add('Q_' + cls)
     imports = ['PhQVerif.Core.Model'] + ['PhQVerif.Generated.%s' % x for x in sorted(mods)]
     emit_list_with_obligation(em, 'DirCast', 'Entry × Entry', rows, imports, 'Chk.C16dir', 'C16dir')
+
+
+def cxx_float_literal(text):
+    """Exact value (Fraction) of a C++ floating literal as the compiler reads it: rounded to double, or to
+    float / long double when suffixed."""
+    import re
+    from fractions import Fraction
+    sys.path.insert(0, os.path.join(os.path.dirname(os.path.dirname(os.path.abspath(__file__))), 'harness'))
+    import pyfloat
+    t = text.replace("'", '')
+    fmt = 64
+    if t[-1] in 'lL':
+        fmt, t = 80, t[:-1]
+    elif t[-1] in 'fF' and not t.lower().startswith('0x'):
+        fmt, t = 32, t[:-1]
+    if t.lower().startswith('0x'):
+        m = re.match(r'0[xX]([0-9a-fA-F]*)\.?([0-9a-fA-F]*)[pP]([+-]?\d+)$', t)
+        v = Fraction(int((m.group(1) + m.group(2)) or '0', 16), 16 ** len(m.group(2))) * Fraction(2) ** int(m.group(3))
+    else:
+        m = re.match(r'(\d*)\.?(\d*)(?:[eE]([+-]?\d+))?$', t)
+        v = Fraction(int((m.group(1) + m.group(2)) or '0'), 10 ** len(m.group(2))) * Fraction(10) ** int(m.group(3) or 0)
+    r = pyfloat.round_to(v, fmt)
+    return r
+
+
+def emit_print_facts(em):
+    """C15: the constants of PhQ::Print's interval cascade, read from the source text of Base.hpp in source
+    order: the literals `absolute` is compared with, and the notation / precision offset of every leaf."""
+    import re
+    src = open(os.path.join(em.cache, 'symincl', 'PhQ', 'Base.hpp')).read()
+    a = src.find('inline std::string Print(const NumericType value)')
+    b = src.find('return stream.str();', a)
+    body = src[a:b] if a >= 0 and b >= 0 else ''
+    body = re.sub(r'//[^\n]*', '', body)
+    thr = []
+    for m in re.finditer(r'absolute\s*(<|==)\s*([0-9][0-9a-fA-FxX.\'pP+-]*[fFlL]?)', body):
+        if m.group(1) == '==':
+            continue
+        v = cxx_float_literal(m.group(2))
+        thr.append('(%d, %d)' % (v.numerator, v.denominator))
+    leaves = []
+    for m in re.finditer(r'stream\s*<<\s*(0|std::(fixed|scientific)\s*<<\s*std::setprecision\(\s*'
+                         r'std::numeric_limits<NumericType>::max_digits10\s*(?:([+-])\s*(\d+))?\s*\)\s*<<\s*value)',
+                         body):
+        if m.group(1) == '0':
+            leaves.append('(none : Option (Bool × Int))')
+        else:
+            off = int(m.group(4) or 0) * (-1 if m.group(3) == '-' else 1)
+            leaves.append('some (%s, (%d : Int))' % ('true' if m.group(2) == 'scientific' else 'false', off))
+    L = ['-- GENERATED by emit_lean.py -- do not edit.', 'namespace PhQVerif.Generated', '',
+         '/-- The literals `absolute` is compared with in `PhQ::Print`, in source order, as exact rationals. -/',
+         'def printThresholds : List (Nat × Nat) := [%s]' % ', '.join(thr), '',
+         '/-- What each leaf of the cascade writes, in source order: `none` = the literal `0`,',
+         '`some (scientific?, offset)` = that notation with `max_digits10 + offset` decimals. -/',
+         'def printLeaves : List (Option (Bool × Int)) := [%s]' % ', '.join(leaves), '',
+         'end PhQVerif.Generated']
+    em.write('PrintFacts.lean', '\n'.join(L) + '\n')
+
+
+def emit_serial(em):
+    """C15: every Print/JSON/XML/YAML entry paired with the Value entry that has the same unit argument
+    (none for the raw vector and tensor types, whose value is their stored components), and every
+    stream operator paired with Print()."""
+    rows, srows, mods = [], [], set()
+    for e in em.model:
+        m = e['meta']
+        if m['kind'] == 'method' and m.get('name') in ('Print', 'JSON', 'XML', 'YAML'):
+            v = '%s::Value(UnitType)[%s]' % (m['cls'], m['unit']) if m.get('unit') else '%s::Value()' % m['cls']
+            for fmt in (32, 64, 80):
+                if str(fmt) not in e['instances'][0]['fmts']:
+                    continue
+                ve = em.by_id.get(v)
+                if ve is not None and str(fmt) in ve['instances'][0]['fmts']:
+                    rows.append('(f%d.%s, some f%d.%s)' % (fmt, ident(e['id']), fmt, ident(v)))
+                else:
+                    rows.append('(f%d.%s, none)' % (fmt, ident(e['id'])))
+                mods.add('Q_' + m['cls'])
+        if m['kind'] == 'stream':
+            pr = '%s::Print()' % m['cls']
+            for fmt in (32, 64, 80):
+                if str(fmt) not in e['instances'][0]['fmts']:
+                    continue
+                if pr in em.by_id and str(fmt) in em.by_id[pr]['instances'][0]['fmts']:
+                    srows.append('(f%d.%s, some f%d.%s)' % (fmt, ident(e['id']), fmt, ident(pr)))
+                else:
+                    srows.append('(f%d.%s, none)' % (fmt, ident(e['id'])))
+                mods.add('Q_' + m['cls'])
+    imports = ['PhQVerif.Core.Model'] + ['PhQVerif.Generated.%s' % x for x in sorted(mods)]
+    emit_list_with_obligation(em, 'Serial', 'Entry × Option Entry', rows, imports, 'Chk.C15serial', 'C15serial',
+                              chunk=120)
+    emit_list_with_obligation(em, 'Streams', 'Entry × Option Entry', srows, imports, 'Chk.C15stream',
+                              'C15stream')
 
 
 def emit_layout(em):
